@@ -222,6 +222,7 @@ def step (s : St) (line : String) : St × String :=
       ++ " R=" ++ pairsOut (sortPairs r'.branches) ++ " H=" ++ hexOut r'.head ++ " I=" ++ pairsOut (sortPairs r'.index)
       ++ " L=" ++ listOut (r'.reflog.map fun x => match x with | none => "nil" | some i => hexOut i))
   | ["idx.reset", c] => (s, resOut entriesOut (Cmds.resetEntries H s.fn depth (unhex c)))
+  | ["idx.reset", c, _before] => (s, resOut entriesOut (Cmds.resetEntries H s.fn depth (unhex c)))
   | "eff.shape" :: cmd :: rest =>
     let n (i : Nat) : Nat := natOf (rest.getD i "0")
     let objs (k : Nat) : List (Bytes × Bytes) := (List.range k).map fun i => ([UInt8.ofNat i], [])
